@@ -42,7 +42,7 @@ Fixpoint sstar_loop (fuel : nat) (V : list string) (A X : smat) : option smat :=
            if smat_eqb V X' X then Some X else sstar_loop f V A X'
   end.
 
-Definition sstar (V : list string) (A : smat) : option smat := sstar_loop (4 * length V + 4) V A sid.
+Definition sstar (V : list string) (A : smat) : option smat := sstar_loop (4 * length V * length V + 2) V A sid.
 
 Definition w_ok (V : list string) (A : smat) : bool :=
   forallb (fun x => forallb (fun y => negb (W_BAD (A x y) (String.eqb x y))) V) V.
